@@ -224,6 +224,7 @@ func typeName(t reflect.Type) string {
 type wfHandle struct {
 	in, out   reflect.Type
 	addLambda func(key string, l *compose.Lambda) *compose.WorkflowNode
+	addPass   func(key string) *compose.WorkflowNode // AddPassthroughNode
 	end       func() *compose.WorkflowNode
 	addBranch func(from string, b *compose.GraphBranch)
 	addEnd    func(from string, fms ...*compose.FieldMapping) // the deprecated Workflow.AddEnd
@@ -257,6 +258,7 @@ func newWF[I, O any]() *wfHandle {
 	wf := compose.NewWorkflow[I, O]()
 	h := &wfHandle{in: reflect.TypeOf((*I)(nil)).Elem(), out: reflect.TypeOf((*O)(nil)).Elem()}
 	h.addLambda = func(key string, l *compose.Lambda) *compose.WorkflowNode { return wf.AddLambdaNode(key, l) }
+	h.addPass = func(key string) *compose.WorkflowNode { return wf.AddPassthroughNode(key) }
 	h.end = func() *compose.WorkflowNode { return wf.End() }
 	h.addBranch = func(from string, b *compose.GraphBranch) { wf.AddBranch(from, b) }
 	h.addEnd = func(from string, fms ...*compose.FieldMapping) { wf.AddEnd(from, fms...) }
